@@ -6,6 +6,7 @@ import Lean.Data.Json
 import FormakVerif.Model.Names
 import FormakVerif.Model.Expr
 import FormakVerif.Model.PyModel
+import FormakVerif.Model.Runtime
 open Lean FormakVerif
 
 def parseRat (s : String) : Except String Rat :=
@@ -174,6 +175,54 @@ def opFromData (j : Json) : Except String Json := do
   | .ok _ => return okJ (Json.str "ok")
   | .error e => return errJ (bindErrStr e)
 
+/-- `plan`: the prediction steps from `cur` to `out` (binary64 or exact). -/
+def opPlan (j : Json) : Except String Json := do
+  let arith := (j.getObjVal? "arith" >>= fun a => a.getStr?).toOption.getD "float"
+  if arith == "rat" then
+    let m ← jRat (← j.getObjVal? "maxdt"); let c ← jRat (← j.getObjVal? "cur"); let o ← jRat (← j.getObjVal? "out")
+    return okJ (Json.arr ((plan ratTime m c o).map fun q => Json.str (ratStr q)).toArray)
+  else
+    let m ← jFloat (← j.getObjVal? "maxdt"); let c ← jFloat (← j.getObjVal? "cur"); let o ← jFloat (← j.getObjVal? "out")
+    return okJ (Json.arr ((plan floatTime m c o).map floatBits).toArray)
+
+def callStr : Call Float → String
+  | .proc dt => s!"p {dt.toBits.toNat}"
+  | .sens id => s!"s {id}"
+
+def jReading (j : Json) : Except String (Float × Nat) := do
+  let a ← j.getArr?
+  match a[0]?, a[1]? with
+  | some t, some i => return (← jFloat t, ← i.getNat?)
+  | _, _ => .error "reading expected"
+
+/-- `ticks`: a whole history through the model of one runtime with the recording filter. -/
+def opTicks (j : Json) : Except String Json := do
+  let rt ← (← j.getObjVal? "runtime").getStr?
+  let m ← jFloat (← j.getObjVal? "maxdt")
+  let t0 ← jFloat (← j.getObjVal? "t0")
+  let hasControl := (j.getObjVal? "hascontrol" >>= fun a => a.getBool?).toOption.getD true
+  let hist ← jList (fun t => do
+      let out ← jFloat (← t.getObjVal? "out")
+      let rs ← jList jReading (← t.getObjVal? "readings")
+      let given := (t.getObjVal? "control" >>= fun a => a.getBool?).toOption.getD true
+      return (out, rs, given)) (← j.getObjVal? "history")
+  let F := traceFilter Float
+  let enc (l : List (Call Float)) : Json := Json.arr (l.map fun c => Json.str (callStr c)).toArray
+  let mut outs : Array Json := #[]
+  if rt == "py" then
+    let mut self : PyManaged Float (List (Call Float)) := ⟨t0, []⟩
+    for (out, rs, given) in hist do
+      match pyTick floatTime F m hasControl given self out rs with
+      | .ok (self', est) => self := self'; outs := outs.push (enc est)
+      | .error _ => outs := outs.push (Json.str "missing-control")
+    return okJ (Json.mkObj [("outs", Json.arr outs), ("held_time", floatBits self.current_time), ("held", enc self.state)])
+  else
+    let mut st : CppState Float (List (Call Float)) := ⟨t0, []⟩
+    for (out, rs, _) in hist do
+      let (st', est) := cppTick floatTime F m st out rs
+      st := st'; outs := outs.push (enc est)
+    return okJ (Json.mkObj [("outs", Json.arr outs), ("held_time", floatBits st.currentTime), ("held", enc st.state)])
+
 def dispatch (j : Json) : Except String Json := do
   let op ← (← j.getObjVal? "op").getStr?
   match op with
@@ -182,6 +231,8 @@ def dispatch (j : Json) : Except String Json := do
   | "layout" => opLayout j
   | "bind" => opBind j
   | "fromdata" => opFromData j
+  | "plan" => opPlan j
+  | "ticks" => opTicks j
   | "ping" => return okJ (Json.str "pong")
   | o => .error s!"unknown op {o}"
 
